@@ -157,12 +157,14 @@ def write_v1(fn, scans, F=4, ants=('ant1', 'ant2'), t0=1200000000.0, dt=1.0, gri
 
 
 def write_v2(fn, T=10, F=8, ants=('ant1', 'ant2'), t0=1300000000.0, dt=2.0, acts=(), targets=(), labels=(), dup_last=False,
-             grid4=None, hist=None):
+             grid4=None, hist=None, old=False, centre=1822e6):
+    """old: a version 2.0 file: the centre frequency is NOT in RFE/center-frequency-hz (a decoy value is stored there)
+    but 4200 MHz below the RFE7 LO1 frequency sensor."""
     inputs = [a + p for a in ants for p in 'hv']
     cps = [(inputs[i], inputs[j]) for i in range(len(inputs)) for j in range(i, len(inputs))]
     B = len(cps)
     f = h5py.File(fn, 'w')
-    f.attrs['version'] = '2.1'
+    f.attrs['version'] = '2.0' if old else '2.1'
     f.attrs['augment_ts'] = 1.0
     data = f.create_group('Data')
     rows = T + (1 if dup_last else 0)
@@ -194,7 +196,10 @@ def write_v2(fn, T=10, F=8, ants=('ant1', 'ant2'), t0=1300000000.0, dt=2.0, acts
         sg.create_dataset('pos.actual-scan-azim', data=_num(hist['num'][a]['azim']))
         sg.create_dataset('pos.actual-scan-elev', data=_num(hist['num'][a]['elev']))
         sg.create_dataset('drive.mode', data=_cat(hist['cat'][a]))
-    sens(S.create_group('RFE'), 'center-frequency-hz', [(t0 - 5, 1822e6)], np.float64)
+    rfe = S.create_group('RFE')
+    sens(rfe, 'center-frequency-hz', [(t0 - 5, 1500e6 if old else centre)], np.float64)
+    if old:
+        sens(rfe, 'rfe7.lo1.frequency', [(t0 - 5, centre + 4200e6)], np.float64)
     sens(S.create_group('DBE'), 'dbe.mode', [(t0 - 5, b'wbc')])
     M = f.create_group('Markup')
     M.create_dataset('labels', data=np.array([(t0 + dt * d - 0.9, v.encode()) for d, v in labels],
@@ -208,7 +213,8 @@ def write_v2(fn, T=10, F=8, ants=('ant1', 'ant2'), t0=1300000000.0, dt=2.0, acts
 
 
 def write_v3(fn, T=10, F=8, ants=('m000', 'm001'), t0=1500000000.0, dt=2.0, acts=(), targets=(), labels=(),
-             dup_last=False, centroid=False, lower=False, cbf_dt=0.5, grid4=None, hist=None):
+             dup_last=False, centroid=False, lower=False, cbf_dt=0.5, grid4=None, hist=None, bandwidth=None,
+             l0_centre=None):
     """lower: a "fake UHF" file (bandwidth 856 MHz, to be opened with band='u') whose spectral window has sideband -1."""
     inputs = [a + p for a in ants for p in 'hv']
     cps = [(inputs[i], inputs[j]) for i in range(len(inputs)) for j in range(i, len(inputs))]
@@ -234,13 +240,15 @@ def write_v3(fn, T=10, F=8, ants=('m000', 'm001'), t0=1500000000.0, dt=2.0, acts
     cbf.attrs['class'] = 'CorrelatorBeamformer'
     cbf.attrs['int_time'] = cbf_dt
     cbf.attrs['n_chans'] = F
-    cbf.attrs['bandwidth'] = 856e6 if lower else 856e6 / 4096 * F
+    cbf.attrs['bandwidth'] = bandwidth if bandwidth is not None else (856e6 if lower else 856e6 / 4096 * F)
     cbf.attrs['bls_ordering'] = np.array(cps, dtype='S')
     cbf.attrs['scale_factor_timestamp'] = 1712e6
     cbf.attrs['sync_time'] = t0 - 1000.0
     sdp = tm.create_group('sdp')
     sdp.attrs['class'] = 'ScienceDataProcessor'
     sdp.attrs['l0_int_time'] = dt
+    if l0_centre is not None:
+        sdp.attrs['l0_center_freq'] = l0_centre
     obs = tm.create_group('obs')
     obs.attrs['class'] = 'Observation'
     sens(obs, 'label', [(t0 + dt * d - 0.9, v.encode()) for d, v in labels] or [(t0 - 5, b'')])
